@@ -115,6 +115,7 @@ let item16 v = match lst v with
   | [k; s] when str k = "X" -> RefExpand16.Text (str s)
   | [k; l] when str k = "I" -> RefExpand16.InitLine (uline l)
   | [k; pre; ee] when str k = "T" -> RefExpand16.TableLine (str pre, str ee = "1")
+  | [k; l] when str k = "U" -> RefExpand16.UserLine (uline l)
   | [k; kd; body] when str k = "B" -> RefExpand16.Block (ekind kd, "", "", ulines body)
   | [k; kd; ib; ie; body] when str k = "B" -> RefExpand16.Block (ekind kd, str ib, str ie, ulines body)
   | [k; body] when str k = "S" -> RefExpand16.SigBlock ("", "", ulines body)
@@ -160,3 +161,10 @@ let () =
        | None -> failwith "tt_model") | _ -> failwith "arity");
   register "sml.text" (function [ws; ee; tt] ->
       S (SmlRender.sml_text (str ws) (str ee = "1") (EngineDomain16.table_of (rows tt))) | _ -> failwith "arity")
+
+(* the whole shipped TEMPLATEInternals.cs *)
+let () =
+  register "cs.file_ref" (function [tt; structs; protos; msgs; a] ->
+      S (CsRender.cs_file_ref (rows tt) (strs structs) (strs protos) (strs msgs) (dict a)) | _ -> failwith "arity");
+  register "cs.file_wf" (function [tt; structs; protos; msgs; a] ->
+      vbool (CsRender.cs_file_wf (rows tt) (strs structs) (strs protos) (strs msgs) (dict a)) | _ -> failwith "arity")
